@@ -69,6 +69,19 @@ theorem after_expiry_not_holder (ids : List String) (lock : Path) (ttl : Int) (p
     holds σ' i = false ∧ (∀ c', σ'.clients[i]? = some c' → c'.cache = none) := by
   exact LockLemmas.expire_not_holder _ i c hc he
 
+-- (holds in every state, reachable or not: `hi`, `hg` are not needed)
+set_option linter.unusedVariables false in
+/-- the same when the session ends in the middle of an `AcquireLock` of that process (`Step.expireAcq`, the weaker form
+of E5): right after it the process neither holds the lock nor has a cache entry; the `AcquireLock` in flight can only
+answer `true` from a primitive executed on a new session (`told_true_means_holder` covers that answer) -/
+theorem after_expiry_during_acquire_not_holder (ids : List String) (lock : Path) (ttl : Int) (parents : List (Path × ZNode))
+    (hi : GoodInit ids lock parents) (steps : List Step) (hg : ∀ st ∈ steps, st.guarded = true) (i : Nat) (c : Client)
+    (hc : (run (init ids lock ttl parents) steps).clients[i]? = some c)
+    (he : step (run (init ids lock ttl parents) steps) (.expireAcq i) ≠ run (init ids lock ttl parents) steps) :
+    let σ' := step (run (init ids lock ttl parents) steps) (.expireAcq i)
+    holds σ' i = false ∧ (∀ c', σ'.clients[i]? = some c' → c'.cache = none) := by
+  exact LockLemmas.expireAcq_not_holder _ i c hc he
+
 /-- releasing never removes a lock owned by another process: whenever a `delete` of the lock key is
 executed for client i, the znode it removes (if any) carries i's identity -/
 theorem release_removes_only_own_lock (ids : List String) (lock : Path) (ttl : Int) (parents : List (Path × ZNode))
@@ -163,5 +176,12 @@ theorem candidate_only_changes_state (connected upd lock : Bool) (maint : Manage
 example : holds (run twoClients [.beginAcquire 0, .prim 0, .prim 0]) 0 = true := by decide
 example : (run twoClients [.beginAcquire 0, .prim 0, .prim 0, .beginRelease 0, .prim 0, .prim 0, .beginAcquire 1, .prim 1, .prim 1]).told
     = [(1, false), (0, false)] := by decide
+-- … and `expireAcq` does fire in the middle of an AcquireLock: A's create was applied (reply lost, A is the server-side holder
+-- without knowing), A's session ends, the znode goes with it; B acquires; A's re-sent create on its next session is refused
+example :
+    let σ0 := run twoClients [.beginAcquire 0, .prim 0, .primLostRetry 0]
+    let σ := run σ0 [.expireAcq 0, .beginAcquire 1, .prim 1, .prim 1, .reconnect 0, .prim 0]
+    holds σ0 0 = true ∧ lockData (step σ0 (.expireAcq 0)) = none ∧ σ.told = [(1, false)] ∧ holds σ 0 = false ∧ holds σ 1 = true := by
+  decide
 
 end C03
